@@ -19,8 +19,13 @@ Directives (comment lines starting with `//@`, arguments shell-quoted):
   //@ insert NAME before "LIT" : TEXT                     LIT must occur exactly once
   //@ insert NAME after "LIT" : TEXT
   //@ insert NAME before-brace "LIT" : TEXT               inside the unique line containing LIT, before its last `{` (loop invariants)
+  //@ insert NAME at-end : TEXT                           before the last non-blank line of the piece (proof block before a tail expression)
   //@ expect-fail FUNCTION                                vacuity guard: this function must NOT verify
+  //@ copy NEW from OLD                                   duplicate a piece as processed so far
+  //@ weak FUNCTION refuted-by W1 W2 ...                  FUNCTION failing to verify counts as a violation only if a witness W (same body, inputs pinned
+                                                          to concrete values, `ensures` the negated contract) verifies; otherwise the unit is undecided
 Placeholders `/*@NAME*/` in the template are replaced by the processed text.
+Header `//! smtopt: K=V` is passed to verus as `--smt-option K=V` (e.g. smt.arith.nl=true for polynomial identities over `real`).
 Header: `//! property:`, `//! unit:`, `//! fns:`, `//! tier:`, `//! pair:` (Kani harness that replays a failure).
 """
 import os, re, json, shlex, subprocess, time, glob
@@ -34,6 +39,7 @@ class VUnit:
     def __init__(self):
         self.name = None; self.file = None; self.fns = []; self.tier = "quick"; self.pair = None
         self.role = "contract"
+        self.weak = {}
         self.cls = "unbounded"; self.expect_fail = []; self.timeout = 300; self.bound = ""; self.mem = "light"
 
     @property
@@ -103,6 +109,10 @@ def build(template_path, repo=None):
     u.fns = [x.strip() for x in fns if x.strip()]
     u.tier = hdr.get("tier", "quick").strip()
     u.pair = hdr.get("pair", "").strip() or None
+    if hdr.get("class"):
+        u.cls = hdr["class"].strip()          # `bounded`: the unit checks pinned inputs only - never counted as proved
+    u.bound = hdr.get("bound", "").strip()
+    u.smt_options = [x.strip() for x in hdr.get("smtopt", "").split(",") if x.strip()]
     pieces, rec = {}, dict(extracted=[], rewrites=[], drops=[], inserts=[])
     for line in raw.splitlines():
         if not line.startswith("//@ "):
@@ -187,6 +197,14 @@ def build(template_path, repo=None):
             pieces[name] = "".join(ls)
             rec["drops"].append("%s: %d line(s) dropped and replaced by %r: %s" % (name, hb[0] - ha[0] + 1, rep, " | ".join(x.strip() for x in dropped.splitlines())))
         elif op == "insert":
+            if t[2] == "at-end":
+                # before the last non-blank line of the piece (the tail expression of a function body)
+                ls = pieces[t[1]].splitlines(keepends=True)
+                k = max(i for i, l in enumerate(ls) if l.strip())
+                ls.insert(k, text.rstrip() + "\n")
+                pieces[t[1]] = "".join(ls)
+                rec["inserts"].append("%s: ghost/proof text before the tail expression" % t[1])
+                continue
             name, where, lit = t[1], t[2], t[3]
             n = pieces[name].count(lit)
             if n != 1:
@@ -202,6 +220,14 @@ def build(template_path, repo=None):
             rec["inserts"].append("%s: ghost/proof text %s %r" % (name, where, lit))
         elif op == "expect-fail":
             u.expect_fail.append(t[1])
+        elif op == "copy":
+            # //@ copy NEW from OLD : a second copy of the piece as processed so far (later directives on either name do not affect the other)
+            pieces[t[1]] = pieces[t[3]]
+        elif op == "weak":
+            # //@ weak FUNCTION refuted-by W1 W2 ... : FUNCTION's obligation needs a procedure the solver is incomplete for (nonlinear real arithmetic).
+            # If it is not proved, the unit is `violated` only when one of the witness functions verifies - a witness pins the inputs to concrete values
+            # and ensures that the contract is FALSE there, which is decidable - and `undecided` otherwise.  Witnesses must fail on a tree where FUNCTION holds.
+            u.weak[t[1]] = t[3:]
         else:
             raise ValueError("unknown directive %s in %s" % (op, template_path))
     def rep(m):
@@ -234,6 +260,8 @@ def run(template_path, workdir, repo=None):
     gp = os.path.join(workdir, crate + ".rs")
     open(gp, "w").write(gen)
     cmd = ["verus", os.path.basename(gp), "--output-json", "--time", "--multiple-errors", "20", "--rlimit", "60"]
+    for o in getattr(u, "smt_options", []):
+        cmd += ["--smt-option", o]
     env = dict(os.environ)
     try:
         p = subprocess.run(cmd, cwd=workdir, stdout=subprocess.PIPE, stderr=subprocess.PIPE, text=True, timeout=u.timeout, env=env)
@@ -263,14 +291,30 @@ def run(template_path, workdir, repo=None):
         return u, res
     def is_expected_fail(fn):
         return any(fn.endswith("::" + e) or fn == e for e in u.expect_fail)
-    real = [f for f in funcs if not is_expected_fail(f["function"])]
-    guards = [f for f in funcs if is_expected_fail(f["function"])]
+    def short(fn):
+        return fn.split("::")[-1]
+    witnesses = set(w for ws in u.weak.values() for w in ws)
+    wit = [f for f in funcs if short(f["function"]) in witnesses]
+    funcs_nw = [f for f in funcs if short(f["function"]) not in witnesses]
+    real = [f for f in funcs_nw if not is_expected_fail(f["function"])]
+    guards = [f for f in funcs_nw if is_expected_fail(f["function"])]
     res["obligations"] = len(real)
     res["discharged"] = sum(1 for f in real if f["ok"])
     if re.search(r"Resource limit \(rlimit\) exceeded|rlimit exceeded|solver.*(crash|unknown)", p.stderr, flags=re.I):
         res.update(verdict="undecided", reason="SMT resource limit exceeded")
         return u, res
     bad = [f for f in real if not f["ok"]]
+    if bad and all(short(f["function"]) in u.weak for f in bad):
+        hit = [w["function"] for f in bad for w in wit if short(w["function"]) in u.weak[short(f["function"])] and w["ok"]]
+        if not hit:
+            res["failed"] = []
+            res.update(verdict="undecided", reason="%s not proved and not refuted at the pinned inputs (%s): the solver's nonlinear reasoning is incomplete" % (
+                ", ".join(f["function"] for f in bad), ", ".join(sorted(witnesses))))
+            return u, res
+        res["failed"] = [dict(function=f["function"]) for f in bad]
+        res["messages"] = ["refuted at the pinned inputs of %s (its requires clause is the failing abstract input)" % h for h in hit]
+        res.update(verdict="violated", reason="%s fail(s) and is refuted at the pinned inputs of %s" % (", ".join(f["function"] for f in bad), ", ".join(hit)))
+        return u, res
     if bad:
         msgs = re.findall(r"^error: ([^\n]+)\n\s+--> ([^\n]+)\n(?:[^\n]*\n){0,12}?[^\n]*\^+ ?([^\n]*)", p.stderr, flags=re.M)
         res["failed"] = [dict(function=f["function"]) for f in bad]
@@ -279,6 +323,9 @@ def run(template_path, workdir, repo=None):
         return u, res
     if len(guards) < len(u.expect_fail) or any(g["ok"] for g in guards):
         res.update(verdict="vacuous", reason="vacuity guard %s verified or missing (contradictory precondition?)" % u.expect_fail)
+        return u, res
+    if any(w["ok"] for w in wit) or len(wit) < len(witnesses):
+        res.update(verdict="vacuous", reason="a refutation witness verified although the contract it refutes was proved, or is missing: %s" % [w["function"] for w in wit if w["ok"]])
         return u, res
     if not u.expect_fail:
         res.update(verdict="vacuous", reason="unit has no expect-fail vacuity guard")
